@@ -34,6 +34,11 @@
 //	mixed     two pools with DIFFERENT aggregator kinds (phout and jsonlines), one signal
 //	backpr    queue of 16 + 4 KiB buffer + a pipe slower than the load: the aggregator sits in write(2), instances
 //	          are parked in phout's blocking Report (jsonlines: counted drops) when the signal arrives
+//	hang      (`-hangs N`) the target stops answering right before SIGTERM (the http gun watches no context and has no
+//	          response timeout: the shots in flight hang), the result goes to a plain file - jsonlines with a
+//	          flush interval of a minute, phout with its default buffer: pandora gives up after 3 s
+//	          ("Interrupt timeout exceeded"), and by then the aggregator - stopped by the cancel of the run, not by the
+//	          end of the instances - has flushed and closed everything reported before the signal
 //
 // The driver only RECORDS; TraceShutdown.tla decides.
 package main
@@ -50,6 +55,7 @@ import (
 	"os"
 	"os/exec"
 	"path/filepath"
+	"strings"
 	"sync"
 	"sync/atomic"
 	"syscall"
@@ -184,6 +190,24 @@ func fileSize(p string) int {
 	return int(st.Size())
 }
 
+// scen hang: requests whose path begins with /h<run>/ are held while that run's gate is in the map (until the gate
+// is closed or the client goes away)
+var hangGates sync.Map
+
+func sigTargetHandler(rw http.ResponseWriter, r *http.Request) {
+	if strings.HasPrefix(r.URL.Path, "/h") {
+		if i := strings.IndexByte(r.URL.Path[1:], '/'); i > 0 {
+			if g, ok := hangGates.Load(r.URL.Path[1 : 1+i]); ok {
+				select {
+				case <-g.(chan struct{}):
+				case <-r.Context().Done():
+				}
+			}
+		}
+	}
+	rw.Write([]byte("ok"))
+}
+
 func sigRunOne(cfg sigRun, bin, target string, w *vt.Writer) {
 	dir, err := os.MkdirTemp("", "verif-aggsig-")
 	if err != nil {
@@ -192,6 +216,10 @@ func sigRunOne(cfg sigRun, bin, target string, w *vt.Writer) {
 	defer os.RemoveAll(dir)
 	// the second entry carries a TAB inside its tag (everything after the first blank is the tag)
 	ammo := "/a\n/b?x=1 my\ttag\n/c\n"
+	gateID := fmt.Sprintf("h%d", cfg.run)
+	if cfg.scen == "hang" {
+		ammo = fmt.Sprintf("/%s/a\n/%s/b?x=1 my\ttag\n/%s/c\n", gateID, gateID, gateID)
+	}
 	if err := os.WriteFile(filepath.Join(dir, "ammo.uri"), []byte(ammo), 0644); err != nil {
 		panic(err)
 	}
@@ -233,6 +261,9 @@ func sigRunOne(cfg sigRun, bin, target string, w *vt.Writer) {
 		}
 		if cfg.q > 0 {
 			result += fmt.Sprintf(", sample-queue-size: %d", cfg.q)
+		}
+		if cfg.scen == "hang" && kind == "vjsonlines" {
+			result += ", flush-interval: 1m" // longer than any timer of cli.go: only the final flush writes
 		}
 		if cfg.scen == "backpr" {
 			result += ", buffer-size: 4096" // every ~70 lines a write(2) into the crawling pipe
@@ -390,6 +421,13 @@ func sigRunOne(cfg sigRun, bin, target string, w *vt.Writer) {
 				sp.pause()
 			}
 		}
+		if cfg.scen == "hang" {
+			// from now on the target answers nothing: every shot that is sent hangs (for as long as the process lives)
+			gate := make(chan struct{})
+			hangGates.Store(gateID, gate)
+			defer func() { hangGates.Delete(gateID); close(gate) }()
+			time.Sleep(150 * time.Millisecond)
+		}
 		before := fileSize(retPath)
 		tSig = time.Now()
 		if err := cmd.Process.Signal(sigByName[cfg.sig]); err != nil {
@@ -410,7 +448,7 @@ func sigRunOne(cfg sigRun, bin, target string, w *vt.Writer) {
 	// scen timeout: pandora must give up by itself (3 s after SIGTERM, 30 s after SIGINT); a process that is still
 	// there a minute after that hangs - that is an observation, not a failure of the machinery
 	limit := 120 * time.Second
-	if cfg.scen == "timeout" {
+	if cfg.scen == "timeout" || cfg.scen == "hang" {
 		limit = 63 * time.Second // SIGTERM: 3 s, and a minute on top of it
 		if cfg.sig == "INT" {
 			limit = 90 * time.Second // 30 s
@@ -420,7 +458,7 @@ func sigRunOne(cfg sigRun, bin, target string, w *vt.Writer) {
 	select {
 	case waitErr = <-exited:
 	case <-time.After(limit):
-		if cfg.scen != "timeout" {
+		if cfg.scen != "timeout" && cfg.scen != "hang" {
 			fail("vpandora did not exit within 120 s")
 			return
 		}
@@ -526,6 +564,7 @@ func aggSigMain(args []string) {
 	failRuns := fs.Int("fail", 0, "extra runs in which one pool fails by itself (CLI error path), most with one signal while the tasks are awaited")
 	scenRuns := fs.Int("scen", 0, "extra runs of the scenarios second / timeout / startup / hup / quit / full / nodir / grpc / mixed / backpr (round robin)")
 	long := fs.Int("long", 0, "extra timeout runs with SIGINT (30 s each)")
+	hangs := fs.Int("hangs", 0, "extra runs of the scenario hang (the target stops answering right before SIGTERM; 3 s each)")
 	fs.Parse(args)
 	seed := aggSeed()
 	w := vt.Create(*out)
@@ -535,9 +574,7 @@ func aggSigMain(args []string) {
 	if err != nil {
 		panic(err)
 	}
-	srv := &http.Server{Handler: http.HandlerFunc(func(rw http.ResponseWriter, r *http.Request) {
-		rw.Write([]byte("ok"))
-	})}
+	srv := &http.Server{Handler: http.HandlerFunc(sigTargetHandler)}
 	go srv.Serve(ln)
 	defer srv.Close()
 	target := ln.Addr().String()
@@ -638,6 +675,14 @@ func aggSigMain(args []string) {
 		}
 		cfgs = append(cfgs, cfg)
 	}
+	r3 := rand.New(rand.NewSource(seed*15485863 + 11))
+	for n := 0; n < *hangs; n++ {
+		cfg := sigRun{run: *runs + *failRuns + *scenRuns + *long + n + 1, rps: 2000 + 1000*r3.Intn(3), inst: 3 + r3.Intn(6), pools: 1,
+			scen: "hang", sig: "TERM", afterMs: 150 + r3.Intn(600)}
+		cfg.kind = []string{"vjsonlines", "vphout"}[n%2]
+		cfg.gmp = []int{0, 2, 1}[n%3]
+		cfgs = append(cfgs, cfg)
+	}
 	sem := make(chan struct{}, *par)
 	var wg sync.WaitGroup
 	// the long ones first: they are mostly waiting
@@ -647,7 +692,7 @@ func aggSigMain(args []string) {
 	}
 	for _, cfg := range order {
 		wg.Add(1)
-		if cfg.scen == "timeout" {
+		if cfg.scen == "timeout" || cfg.scen == "hang" {
 			go func(cfg sigRun) { // sleeps for 3 s / 30 s: does not occupy a slot
 				defer wg.Done()
 				sigRunOne(cfg, *bin, target, w)
